@@ -228,7 +228,8 @@ def gen_instance(rng, profile="mixed", nj=None, nm=None):
         feats["default_setup"] = True
     kinds = ("det",) if profile != "stoch" else ("det", "poisson", "uni", "gaussian", "gamma")
     outs = []
-    for comp in ("m", "t", "m-%d" % rng.randrange(nm)):
+    # with eleven or more machines half of the single-machine outages name m-1, a prefix of m-10, m-11, ...
+    for comp in ("m", "t", "m-%d" % (1 if (nm >= 11 and rng.random() < 0.5) else rng.randrange(nm))):
         if rng.random() < 0.5:
             outs.append({"component": comp, "type": rng.choice(["maintenance", "fail", "recharge"]),
                          "duration": gen_time_spec(rng, kinds), "frequency": gen_time_spec(rng, kinds)})
